@@ -398,6 +398,26 @@ func c09Admission(p *core.Prog, r *core.Report) {
 	}
 }
 
+// isPendingDec: i takes one off the relay's pending count: a call of
+// Relayer.decrementPending, or its body inlined (pending.Dec()).
+func isPendingDec(i ssa.Instruction) bool {
+	if _, ok := core.IsCall(i, "Relayer.decrementPending"); ok {
+		return true
+	}
+	c, ok := i.(*ssa.Call)
+	if !ok {
+		return false
+	}
+	o := core.CalleeObj(c)
+	if o == nil || o.Name() != "Dec" {
+		return false
+	}
+	if top := c.Parent(); top != nil && top.Name() == "decrementPending" {
+		return false // the helper's own body
+	}
+	return recvFieldName(c) == "pending"
+}
+
 func c09Pending(p *core.Prog, r *core.Report) {
 	// Inc only in canHandleNewCall
 	n := 0
@@ -435,7 +455,13 @@ func c09Pending(p *core.Prog, r *core.Report) {
 		if f == nil {
 			continue
 		}
-		decs := core.CallsIn(f, "Relayer.decrementPending")
+		// (the helper, or its body inlined: pending.Dec())
+		var decs []ssa.Instruction
+		core.EachInstr(f, func(i ssa.Instruction) {
+			if isPendingDec(i) {
+				decs = append(decs, i)
+			}
+		})
 		okGuard := len(decs) == 1 && factsAt(decs[0].Block()).hasBool(s.won, true)
 		// every path from the won edge to a return passes it
 		okPath := false
@@ -444,7 +470,7 @@ func c09Pending(p *core.Prog, r *core.Report) {
 				fs := factsAt(b)
 				if fs.hasBool(s.won, true) && len(b.Preds) >= 1 {
 					first := b.Instrs[0]
-					isDec := func(i ssa.Instruction) bool { return i == ssa.Instruction(decs[0]) }
+					isDec := func(i ssa.Instruction) bool { return i == decs[0] }
 					if isDec(first) {
 						okPath = true
 					} else {
@@ -490,7 +516,7 @@ func c09Pending(p *core.Prog, r *core.Report) {
 				return false
 			}
 			weight := func(i ssa.Instruction) (int, int) {
-				if _, ok := core.IsCall(i, "Relayer.decrementPending"); ok {
+				if isPendingDec(i) {
 					return 1, 1
 				}
 				return 0, 0
